@@ -25,6 +25,8 @@ structure Rec where
   ts   : Option Nat
   body : Bytes
   size : Nat            -- padded on-disk size (multiple of 256)
+  wts  : Nat := 0       -- timestamp actually stored in the record (= ts for set; server clock for delete/incr);
+                        -- only GC's age test on the first record of a file looks at it
 deriving DecidableEq, Repr, Inhabited
 
 structure Pos where
@@ -48,12 +50,15 @@ deriving Repr, Inhabited
 structure Cfg where
   dataFileMax : Nat := 4194304000
   checkVHash  : Bool := false
+  bodyMax     : Nat := 52428800         -- MCConf.BodyMax (GC destination test)
+  noGCDays    : Int := 0
 deriving Repr, Inhabited
 
 structure Bucket where
   chunks : Nat → Chunk := fun _ => {}    -- data files by id (total function: absent file = empty chunk)
   head   : Nat := 0                       -- the file receiving appends; files above it are empty
   tree   : List (Nat × TItem) := []
+  nextGC : Nat := 0                       -- nextgc.txt: where an unqualified GC request starts
 deriving Inhabited
 
 def vhashOf (body : Bytes) : Nat := (Gen.Getvhash body).toNat
@@ -117,22 +122,27 @@ def Bucket.put (hash : Key → Nat) (cfg : Cfg) (b : Bucket) (r : Rec) : Bucket 
 
 inductive Op
   | set (k : Key) (body : Bytes) (flag : Nat) (rev : Int) (ts : Nat) (size : Nat)
-  | delete (k : Key) (size : Nat)
-  | incr (k : Key) (delta : Int) (size : Nat)
+  | delete (k : Key) (size : Nat) (wts : Nat)
+  | incr (k : Key) (delta : Int) (size : Nat) (wts : Nat)
   | get (k : Key)
   | info (k : Key)
   | flush
   | reopen (keepTree : Bool)
 deriving Repr
 
-/-- replay of all records in (chunk, offset) order: later record of a key wins, `ver < 0` removes -/
-def replayTree (hash : Key → Nat) (chunks : List Chunk) : List (Nat × TItem) :=
-  let step := fun (acc : List (Nat × TItem) × Nat) (c : Chunk) =>
-    let t := c.recs.foldl (fun t (p : Nat × Rec) =>
-      if p.2.ver > 0 then AMap.set t (hash p.2.key) { pos := { chunk := acc.2, off := p.1 }, ver := p.2.ver, vhash := vhashOf p.2.body }
-      else AMap.erase t (hash p.2.key)) acc.1
-    (t, acc.2 + 1)
-  (chunks.foldl step ([], 0)).1
+/-- all records of the bucket in (file, offset) order, with their positions -/
+def Bucket.log (b : Bucket) : List (Pos × Rec) :=
+  (List.range (b.head + 1)).flatMap (fun i => (b.chunks i).recs.map (fun p => (({ chunk := i, off := p.1 } : Pos), p.2)))
+
+/-- one step of rebuilding the tree from the data (through hints): a live record sets its key's slot,
+    a tombstone removes it -/
+def replayStep (hash : Key → Nat) (t : List (Nat × TItem)) (p : Pos × Rec) : List (Nat × TItem) :=
+  if p.2.ver > 0 then AMap.set t (hash p.2.key) { pos := p.1, ver := p.2.ver, vhash := vhashOf p.2.body }
+  else AMap.erase t (hash p.2.key)
+
+/-- replay of all records in (file, offset) order: later record of a key wins, `ver < 0` removes -/
+def replayTree (hash : Key → Nat) (log : List (Pos × Rec)) : List (Nat × TItem) :=
+  log.foldl (replayStep hash) []
 
 def lastNonEmpty (chunks : List Chunk) : Option Nat :=
   let rec go (i : Nat) (cs : List Chunk) (best : Option Nat) : Option Nat :=
@@ -148,11 +158,11 @@ deriving Repr
 
 /-- `Bucket.checkAndSet` (set: rev ≥ 0 with a body; delete: rev = -1, empty body) -/
 def checkAndSet (hash : Key → Nat) (cfg : Cfg) (b : Bucket) (k : Key) (body : Bytes) (flag : Nat) (rev : Int)
-    (ts : Option Nat) (size : Nat) : Bucket × CasResult :=
+    (ts : Option Nat) (size : Nat) (wts : Nat) : Bucket × CasResult :=
   -- the value hash is only computed for Ver >= 0 (a delete request carries 0)
   let vh := if rev ≥ 0 then vhashOf body else 0
   let write := fun (v : Int) =>
-    let p := b.put hash cfg { key := k, ver := v, flag := flag, ts := ts, body := body, size := size }
+    let p := b.put hash cfg { key := k, ver := v, flag := flag, ts := ts, body := body, size := size, wts := wts }
     (p.1, CasResult.done (some p.2))
   match AMap.get b.tree (hash k) with
   | none =>
@@ -169,16 +179,16 @@ def checkAndSet (hash : Key → Nat) (cfg : Cfg) (b : Bucket) (k : Key) (body : 
 
 def step (hash : Key → Nat) (cfg : Cfg) (b : Bucket) : Op → Bucket × Reply × Option Pos
   | .set k body flag rev ts size =>
-    match checkAndSet hash cfg b k body flag rev (some ts) size with
+    match checkAndSet hash cfg b k body flag rev (some ts) size ts with
     | (b', .done pos) => (b', .stored, pos)
     | (b', .notFound) => (b', .error, none)
-  | .delete k size =>
-    match checkAndSet hash cfg b k [] 0 (-1) none size with
+  | .delete k size wts =>
+    match checkAndSet hash cfg b k [] 0 (-1) none size wts with
     | (b', .done pos) => (b', .deleted, pos)
     | (b', .notFound) => (b', .notFound, none)
-  | .incr k delta size =>
+  | .incr k delta size wts =>
     let write := fun (ver : Int) (v : Int) =>
-      let (b', pos) := b.put hash cfg { key := k, ver := ver, flag := Spec.FLAG_INCR, ts := none, body := Spec.itoa v, size := size }
+      let (b', pos) := b.put hash cfg { key := k, ver := ver, flag := Spec.FLAG_INCR, ts := none, body := Spec.itoa v, size := size, wts := wts }
       (b', Reply.num v, some pos)
     match b.lookup hash k with
     | .miss => write 1 delta
@@ -211,8 +221,8 @@ def step (hash : Key → Nat) (cfg : Cfg) (b : Bucket) : Op → Bucket × Reply 
     let chunks := fun i => { b.chunks i with flushed := (b.chunks i).recs.length }
     let cl := (List.range (b.head + 1)).map chunks
     let head := match lastNonEmpty cl with | some i => i + 1 | none => 0
-    let tree := if keepTree then b.tree else replayTree hash cl
-    ({ chunks := chunks, head := head, tree := tree }, .stored, none)
+    let tree := if keepTree then b.tree else replayTree hash b.log
+    ({ chunks := chunks, head := head, tree := tree, nextGC := b.nextGC }, .stored, none)
 
 end Store
 
@@ -222,8 +232,8 @@ open Spec (Key Reply)
 /-- the client command an operation stands for (flush / reopen are not client commands) -/
 def cmdOf : Op → Option Spec.Cmd
   | .set k body flag rev ts _ => some (.set k body flag rev ts)
-  | .delete k _ => some (.delete k)
-  | .incr k d _ => some (.incr k d)
+  | .delete k _ _ => some (.delete k)
+  | .incr k d _ _ => some (.incr k d)
   | .get k => some (.get k)
   | .info k => some (.info k)
   | .flush => none
